@@ -68,7 +68,7 @@ fn describe_session(s: &Session) -> String {
 /// Run one session and compare with the expectation. `sig` names the violation class.
 #[allow(clippy::too_many_arguments)]
 pub fn check_session(kind: &str, stream: &[u8], cuts: &[usize], flavor: Flavor, mask: u64, end: EndAnswer, expect: &Expect, probe: bool, acc: &mut Acc, sigf: &dyn Fn(&Session) -> String) {
-    let script = Script { stream, cuts, end, pending_mask: mask };
+    let script = Script { stream, cuts, end, pending_mask: mask & 0xffff_ffff, cancel_mask: (mask >> 32) & 0xffff, cancel_twice_mask: mask >> 48 };
     let (s, st) = run_session(flavor, &script, expect.responses.len() + 2, probe);
     acc.sessions += 1;
     acc.reads += st.reads.get();
@@ -361,7 +361,7 @@ fn corruptions(stream: &[u8], subs: &[u8]) -> Vec<Vec<u8>> {
 fn c02_check_stream(stream: &[u8], sets: &[Vec<usize>], pendings: &[u64], acc: &mut Acc) {
     acc.streams += 1;
     // baseline: blocking connection, one read
-    let script = Script { stream, cuts: &[], end: EndAnswer::Eof, pending_mask: 0 };
+    let script = Script { stream, cuts: &[], end: EndAnswer::Eof, pending_mask: 0, cancel_mask: 0, cancel_twice_mask: 0 };
     let (base, _) = run_session(Flavor::Sync, &script, 64, false);
     let expect = Expect { responses: base.responses.clone(), ends: vec![base.end.clone()] };
     if matches!(base.end, Terminal::Panic(_) | Terminal::Hang) {
@@ -373,6 +373,9 @@ fn c02_check_stream(stream: &[u8], sets: &[Vec<usize>], pendings: &[u64], acc: &
         }
         for &m in pendings {
             check_session("C02", stream, cuts, Flavor::Async, m, EndAnswer::Eof, &expect, false, acc, &|_s| "C02/pending-dependent".to_string());
+            // the same positions, but the receive() future is dropped there and receive() called anew
+            check_session("C02", stream, cuts, Flavor::Async, m << 32, EndAnswer::Eof, &expect, false, acc, &|_s| "C02/cancellation-dependent".to_string());
+            check_session("C02", stream, cuts, Flavor::Async, (m & 0b111) << 48, EndAnswer::Eof, &expect, false, acc, &|_s| "C02/cancellation-dependent".to_string());
         }
     }
 }
@@ -506,14 +509,24 @@ pub fn run_c10(tier: Tier) -> i32 {
                         sets.push(vec![c]);
                     }
                 }
+                let sigf = |s: &Session| match (&s.end, on_boundary) {
+                    (Terminal::Clean, false) => "C10/unclean-eof-reported-clean".to_string(),
+                    (Terminal::UnexpectedEof, true) => "C10/clean-eof-reported-unclean".to_string(),
+                    (Terminal::Panic(_), _) => "C10/panic".to_string(),
+                    _ => "C10/mismatch".to_string(),
+                };
                 for cuts in &sets {
                     for flavor in [Flavor::Sync, Flavor::Async] {
-                        check_session("C10", prefix, cuts, flavor, 0, EndAnswer::Eof, &expect, false, &mut acc, &|s: &Session| match (&s.end, on_boundary) {
-                            (Terminal::Clean, false) => "C10/unclean-eof-reported-clean".to_string(),
-                            (Terminal::UnexpectedEof, true) => "C10/clean-eof-reported-unclean".to_string(),
-                            (Terminal::Panic(_), _) => "C10/panic".to_string(),
-                            _ => "C10/mismatch".to_string(),
-                        });
+                        check_session("C10", prefix, cuts, flavor, 0, EndAnswer::Eof, &expect, false, &mut acc, &sigf);
+                    }
+                    // receive() futures dropped at the first / second / both / third read (what a
+                    // `select!` around receive() does) and receive() called again
+                    for cm in [0b1u64, 0b10, 0b11, 0b110, 0b111] {
+                        check_session("C10", prefix, cuts, Flavor::Async, cm << 32, EndAnswer::Eof, &expect, false, &mut acc, &sigf);
+                    }
+                    // … dropped twice in a row at the same read
+                    for cm in [0b1u64, 0b10, 0b100] {
+                        check_session("C10", prefix, cuts, Flavor::Async, cm << 48, EndAnswer::Eof, &expect, false, &mut acc, &sigf);
                     }
                 }
             }
@@ -523,13 +536,55 @@ pub fn run_c10(tier: Tier) -> i32 {
             acc
         })
         .reduce(Acc::default, Acc::merge);
+    // several large components in a row: cuts around every component boundary, with reads that
+    // fill the buffer / network-like chunks
+    let multis = multi_binary_streams(tier.pick(2, 3));
+    let macc = multis
+        .par_iter()
+        .map(|(_, ws)| {
+            let mut acc = Acc::default();
+            let (stream, bounds) = encode_items(ws, BinPos::Last);
+            let expected: Vec<AResponse> = ws.iter().map(|w| w.expected()).collect();
+            acc.streams += 1;
+            let mut positions: Vec<usize> = Vec::new();
+            for &b in &bounds {
+                for d in [-2i64, -1, 0, 1, 2, 9, 40] {
+                    let y = b as i64 + d;
+                    if y >= 0 && y as usize <= stream.len() {
+                        positions.push(y as usize);
+                    }
+                }
+            }
+            positions.sort();
+            positions.dedup();
+            for &p in &positions {
+                let prefix = &stream[..p];
+                let k = bounds.iter().filter(|&&b| b <= p).count();
+                let on_boundary = p == 0 || bounds.contains(&p);
+                let expect = Expect { responses: expected[..k].to_vec(), ends: vec![if on_boundary { Terminal::Clean } else { Terminal::UnexpectedEof }] };
+                acc.nontrivial += 1;
+                let sigf = |s: &Session| match (&s.end, on_boundary) {
+                    (Terminal::Clean, false) => "C10/unclean-eof-reported-clean".to_string(),
+                    (Terminal::UnexpectedEof, true) => "C10/clean-eof-reported-unclean".to_string(),
+                    _ => "C10/mismatch".to_string(),
+                };
+                for cuts in [vec![], chunked(p, 1460), chunked(p, 4096), chunked(p, 8192), chunked(p, 16384)] {
+                    for flavor in [Flavor::Sync, Flavor::Async] {
+                        check_session("C10", prefix, &cuts, flavor, 0, EndAnswer::Eof, &expect, false, &mut acc, &sigf);
+                    }
+                }
+            }
+            acc
+        })
+        .reduce(Acc::default, Acc::merge);
+    let acc = acc.merge(macc);
     // greetings: a proper prefix of a valid greeting is an unexpected EOF
     let mut gacc = Acc::default();
     for g in [&b"OK MPD 0.23.5\n"[..], b"OK MPD x\n"] {
         for p in 0..g.len() {
             for cuts in all_compositions(p.max(1)) {
                 for flavor in [Flavor::Sync, Flavor::Async] {
-                    let script = Script { stream: &g[..p], cuts: &cuts, end: EndAnswer::Eof, pending_mask: 0 };
+                    let script = Script { stream: &g[..p], cuts: &cuts, end: EndAnswer::Eof, pending_mask: 0, cancel_mask: 0, cancel_twice_mask: 0 };
                     let (r, st) = run_connect(flavor, &script);
                     gacc.sessions += 1;
                     gacc.reads += st.reads.get();
@@ -543,7 +598,7 @@ pub fn run_c10(tier: Tier) -> i32 {
     let acc = acc.merge(gacc);
     let cov = proto_coverage(
         &acc,
-        "every stream of the bounded response grammar x every cut position 0..=n (stream truncated there, then EOF) x {one read, one byte at a time, every single cut of the surviving prefix} x {blocking, async}; plus every proper prefix of two greetings under all segmentations; non-trivial = (stream, cut position) pairs",
+        "every stream of the bounded response grammar x every cut position 0..=n (stream truncated there, then EOF) x {one read, one byte at a time, every single cut of the surviving prefix} x {blocking, async, async with the receive() future dropped at the 1st/2nd/3rd read and called again}; sequences of large binary components cut around every component boundary; plus every proper prefix of two greetings under all segmentations; non-trivial = (stream, cut position) pairs",
         json!({"cut_positions": "all", "long_streams": "cuts within +-2 of structural boundaries (thorough tier)"}),
     );
     finish(&ctx, cov, acc.viol)
@@ -616,6 +671,75 @@ pub fn numeric_edges() -> Vec<Vec<u8>> {
     out
 }
 
+/// the numeric-edge sweep itself (runs in the child process)
+pub fn c09_edges(tier: Tier) -> Acc {
+    let edges = numeric_edges();
+    let mut total = Acc::default();
+    for s in &edges {
+        // progress marker for the parent: which stream was being processed if we die
+        eprintln!("EDGE {}", hex(s));
+        let mut acc = Acc::default();
+        let sets = upto_k_cuts(s.len(), tier.pick(1, 2));
+        c09_check_stream(s, &sets, &mut acc);
+        c09_check_stream(s, &[chunked(s.len(), 1)], &mut acc);
+        acc.streams -= 1;
+        if total.samples.is_empty() {
+            acc.samples.push(json!({"numeric_edge_stream": show_bytes(s), "reference_verdict": format!("{:?}", ref_decode(s).end)}));
+        }
+        total = total.merge(acc);
+    }
+    total
+}
+
+/// `verif C09-edges <tier>`: print the sweep's result as one JSON line
+pub fn run_c09_edges_child(tier: Tier) -> i32 {
+    let acc = c09_edges(tier);
+    let viol: Vec<Value> = acc.viol.by_sig.iter().flat_map(|(sig, (n, ex))| ex.iter().map(move |v| json!({"sig": sig, "count": n, "what": v.what, "case": v.case}))).collect();
+    println!("{}", json!({"streams": acc.streams, "sessions": acc.sessions, "reads": acc.reads, "nontrivial": acc.nontrivial, "violations": viol, "samples": acc.samples}));
+    0
+}
+
+fn run_edges_in_child(tier: Tier) -> Acc {
+    let exe = std::env::current_exe().unwrap_or_else(|e| machinery_error(&format!("current_exe: {e}")));
+    let out = std::process::Command::new(exe).arg("C09-edges").arg(tier.as_str()).output().unwrap_or_else(|e| machinery_error(&format!("cannot start the C09 child: {e}")));
+    let mut acc = Acc::default();
+    let stderr = String::from_utf8_lossy(&out.stderr);
+    let last_edge = stderr.lines().rev().find_map(|l| l.strip_prefix("EDGE ")).unwrap_or("").to_string();
+    if !out.status.success() {
+        // the subject took the whole process down (abort on allocation failure, stack overflow, …)
+        let stream = unhex(&last_edge);
+        acc.viol.push(Violation::new(
+            "C09/process-abort",
+            format!("the process died ({}) while receiving {:?}; last words: {}", out.status, show_bytes(&stream), stderr.lines().rev().find(|l| !l.starts_with("EDGE ")).unwrap_or("")),
+            json!({"kind": "stream", "stream_hex": last_edge, "cuts": [], "flavor": "Sync", "pending_mask": 0, "end": "Eof", "note": "replaying this case may abort the replaying process as well"}),
+        ));
+        return acc;
+    }
+    let text = String::from_utf8_lossy(&out.stdout);
+    let line = text.lines().rev().find(|l| l.starts_with('{')).unwrap_or("{}");
+    let v: Value = serde_json::from_str(line).unwrap_or_else(|e| machinery_error(&format!("C09 child printed no JSON: {e}")));
+    acc.streams = v["streams"].as_u64().unwrap_or(0);
+    acc.sessions = v["sessions"].as_u64().unwrap_or(0);
+    acc.reads = v["reads"].as_u64().unwrap_or(0);
+    acc.nontrivial = v["nontrivial"].as_u64().unwrap_or(0);
+    acc.samples = v["samples"].as_array().cloned().unwrap_or_default();
+    for x in v["violations"].as_array().cloned().unwrap_or_default() {
+        let n = x["count"].as_u64().unwrap_or(1);
+        let viol = Violation::new(x["sig"].as_str().unwrap_or("C09/mismatch"), x["what"].as_str().unwrap_or(""), x["case"].clone());
+        let e = acc.viol.by_sig.entry(viol.sig.clone()).or_insert((0, Vec::new()));
+        if e.1.is_empty() {
+            e.0 += n;
+        }
+        if e.1.len() < KEEP_PER_SIG {
+            e.1.push(viol);
+        }
+    }
+    if acc.sessions == 0 {
+        machinery_error("C09 child ran no sessions");
+    }
+    acc
+}
+
 pub fn run_c09(tier: Tier) -> i32 {
     let mut ctx = Ctx::new("C09", tier, "model_checking");
     ctx.assume("the reference decoder of mpdref::wire defines which complete lines are malformed (grammar in DESIGN.md 3.5); a stream that merely stops early may be reported as UnexpectedEof or, when the partial line is already impossible, InvalidMessage");
@@ -635,7 +759,7 @@ pub fn run_c09(tier: Tier) -> i32 {
                 // the same bytes as a greeting
                 for flavor in [Flavor::Sync, Flavor::Async] {
                     for cuts in &sets {
-                        let script = Script { stream: s, cuts, end: EndAnswer::Eof, pending_mask: 0 };
+                        let script = Script { stream: s, cuts, end: EndAnswer::Eof, pending_mask: 0, cancel_mask: 0, cancel_twice_mask: 0 };
                         let (r, st) = run_connect(flavor, &script);
                         acc.sessions += 1;
                         acc.reads += st.reads.get();
@@ -689,22 +813,11 @@ pub fn run_c09(tier: Tier) -> i32 {
             acc
         })
         .reduce(Acc::default, Acc::merge);
-    // (c) numeric edges
+    // (c) numeric edges — in a child process: an absurd length that makes the subject allocate
+    // aborts the process instead of panicking, and an abort must become a verdict, not a crash of
+    // the check
     let edges = numeric_edges();
-    let acc_c = edges
-        .par_iter()
-        .map(|s| {
-            let mut acc = Acc::default();
-            let sets = upto_k_cuts(s.len(), tier.pick(1, 2));
-            c09_check_stream(s, &sets, &mut acc);
-            c09_check_stream(s, &[chunked(s.len(), 1)], &mut acc);
-            acc.streams -= 1;
-            if acc.samples.is_empty() {
-                acc.samples.push(json!({"numeric_edge_stream": show_bytes(s), "reference_verdict": format!("{:?}", ref_decode(s).end)}));
-            }
-            acc
-        })
-        .reduce(Acc::default, Acc::merge);
+    let acc_c = run_edges_in_child(tier);
     let mut acc = acc_a.merge(acc_b).merge(acc_c);
     acc.samples.push(json!({"all_strings_over": show_bytes(alphabet), "max_len": maxlen, "count": strings.len(), "corruption_pool": pool.len(), "numeric_edge_streams": edges.len()}));
     let cov = proto_coverage(
@@ -782,7 +895,7 @@ pub fn c18_proto(tier: Tier) -> Acc {
                 };
                 for cuts in &sets {
                     for flavor in [Flavor::Sync, Flavor::Async] {
-                        let script = Script { stream: s, cuts, end: EndAnswer::Eof, pending_mask: 0 };
+                        let script = Script { stream: s, cuts, end: EndAnswer::Eof, pending_mask: 0, cancel_mask: 0, cancel_twice_mask: 0 };
                         let (r, st) = run_connect(flavor, &script);
                         acc.sessions += 1;
                         acc.reads += st.reads.get();
@@ -824,7 +937,7 @@ pub fn replay(id: &str, case: &Value) -> i32 {
     let mask = case["pending_mask"].as_u64().unwrap_or(0);
     println!("replay {id}: {flavor:?}, {} bytes {:?}, cuts {:?}, pending mask {mask:#b}", stream.len(), show_bytes(&stream[..stream.len().min(300)]), cuts);
     if case["kind"].as_str() == Some("greeting") {
-        let script = Script { stream: &stream, cuts: &cuts, end: EndAnswer::Eof, pending_mask: mask };
+        let script = Script { stream: &stream, cuts: &cuts, end: EndAnswer::Eof, pending_mask: mask & 0xffff_ffff, cancel_mask: (mask >> 32) & 0xffff, cancel_twice_mask: mask >> 48 };
         let (r, st) = run_connect(flavor, &script);
         let want = match ref_greeting(&stream) {
             RefGreeting::Version(v) => ConnectResult::Version(v),
@@ -834,12 +947,12 @@ pub fn replay(id: &str, case: &Value) -> i32 {
         println!("  connect -> {r:?} after {} reads; reference says {want:?}", st.reads.get());
         return if r == want { println!("replay: property holds on this case"); 0 } else { println!("replay: VIOLATION"); 1 };
     }
-    let script = Script { stream: &stream, cuts: &cuts, end: EndAnswer::Eof, pending_mask: mask };
+    let script = Script { stream: &stream, cuts: &cuts, end: EndAnswer::Eof, pending_mask: mask & 0xffff_ffff, cancel_mask: (mask >> 32) & 0xffff, cancel_twice_mask: mask >> 48 };
     let (s, st) = run_session(flavor, &script, 64, id == "C09");
     println!("  session: {}", describe_session(&s));
     println!("  reads: {}", st.reads.get());
     let expect = if id == "C02" {
-        let b = Script { stream: &stream, cuts: &[], end: EndAnswer::Eof, pending_mask: 0 };
+        let b = Script { stream: &stream, cuts: &[], end: EndAnswer::Eof, pending_mask: 0, cancel_mask: 0, cancel_twice_mask: 0 };
         let (base, _) = run_session(Flavor::Sync, &b, 64, false);
         println!("  baseline (blocking, one read): {}", describe_session(&base));
         Expect { responses: base.responses, ends: vec![base.end] }
